@@ -12,7 +12,7 @@ def sh(cmd, cwd=None, env=None, timeout=3600):
     return p.returncode, p.stdout.decode("utf-8", "replace")
 
 def tap(tree):
-    rc, out = sh("make -k check > /tmp/seed_check.log 2>&1; find tests -name '*.log' | xargs grep -h '^ok ' | wc -l; find tests -name '*.log' | xargs grep -h '^not ok ' | wc -l", cwd=tree)
+    rc, out = sh("find tests -name '*.trs' -delete; find tests -name '*.log' -delete; make -k check > /tmp/seed_check.log 2>&1; find tests -name '*.log' | xargs grep -h '^ok ' | wc -l; find tests -name '*.log' | xargs grep -h '^not ok ' | wc -l", cwd=tree)
     nums = [int(x) for x in out.split() if x.isdigit()]
     return nums[-2:] if len(nums) >= 2 else nums
 
@@ -22,10 +22,10 @@ def main():
     if "--checks" in sys.argv:
         checks = sys.argv[sys.argv.index("--checks") + 1].split(",")
     out = os.path.join(mutdir, "OUT", k)
-    base = mutdir + "-base"
+    base = "/tmp/mut-base"     # shared pristine scratch worktree (tools/mk_scratch.sh)
     meta = {"property": prop, "name": name, "source": "independent sub-agent given only the property text", "validated_at": time.strftime("%F %T")}
     if not os.path.isdir(base):
-        sh("cp -a /repo %s && cd %s && make distclean >/dev/null 2>&1; ./configure >/dev/null 2>&1 && make -j8 >/dev/null 2>&1" % (base, base))
+        sh("/verif/tools/mk_scratch.sh %s" % base)
     # clean tree + patch
     rc, o = sh("git checkout -q -- src include doc 2>/dev/null; git apply %s/patch.diff" % out, cwd=mutdir)
     if rc != 0:
